@@ -5,7 +5,7 @@
 //@ harness e_paths_slash kind=enum props=C16 bound=<<starting points d/, d//, d/., ./, d/./ x entries at depth 1, 2 below them>> label=<<%p, %P, %d and %f for starting points spelled with a trailing slash or a trailing /.>>
 //@ harness e_paths_slash_h kind=enum props=C16 bound=<<starting points d/, d//, d/., ./, d/./ x entries at depth 1, 2 below them>> label=<<%H is the starting point as given and %h the part before the last component, and %H, a separator and %P recompose %p, for starting points spelled with a trailing slash or a trailing /.>>
 //@ harness e_printf_roots kind=enum props=C16 bound=<<a real tree a/{f1, b/{f2}} with the starting points a and a/b in either order (one inside the other), or a/b and a sibling c x -type f / -mindepth 1 / -depth placed before -printf>> label=<<for every entry %H is the starting point of the walk that reached it and %P the path below that starting point, also when one starting point lies inside another and the same -printf serves both walks>>
-//@ harness e_padding kind=enum props=C16 bound=<<widths none, 0, 1, 3, 10, 64, 65, 100, 300 x both justifications x values of 1, 4 and 12 characters (%f) and a number (%d)>> label=<<a directive's value is padded with blanks to the minimum width, on the left by default and on the right with '-', and never truncated>>
+//@ harness e_padding kind=enum props=C16 bound=<<widths none, 0, 1, 3, 10, 64, 65, 100, 300, 65535, 65536, 70000 x both justifications x values of 1, 4 and 12 characters (%f) and a number (%d)>> label=<<a directive's value is padded with blanks to the minimum width, on the left by default and on the right with '-', and never truncated>>
 //@ harness e_format_text kind=enum props=C16 bound=<<format strings of 0..=3 pieces over {a, e-acute, \n, \101, \0, \\, %%, %p, trailing text, \a, \b, \f, \r, \t, \v, \7, \12, the 3-byte euro sign}>> label=<<escapes and %% are replaced by their character, every other character is copied verbatim, nothing is appended>>
 //@ harness e_inode_below_root kind=enum props=C16,C13 bound=<<every entry directly below / (mount points included where the sandbox has them)>> label=<<%i is the inode number of the status record (lstat under -P), also for entries that are mount points, where the directory listing reports a different number>>
 //@ harness e_stat_directives kind=enum props=C16,C13 bound=<<a regular file (5 bytes, mode 0640), a directory (mode 2750), a symbolic link to the file, a dangling link x follow modes -P and -L>> label=<<%s %n %i %U %G in decimal and %m in octal (all twelve bits) come from the status record the follow mode selects; %y/%Y are the type letters of -type/-xtype; %l is the link target or nothing>>
@@ -94,7 +94,7 @@ mod verif_enum_printf {
     #[test] fn e_printf_roots() { kani::explore(printf_roots_body) }
 
     fn padding_body() {
-        let widths = [None, Some(0usize), Some(1), Some(3), Some(10), Some(64), Some(65), Some(100), Some(300)];
+        let widths = [None, Some(0usize), Some(1), Some(3), Some(10), Some(64), Some(65), Some(100), Some(300), Some(65535), Some(65536), Some(70000)];
         let w = widths[pick(widths.len())];
         let left = pick(2) == 1;
         let names = ["a", "abcd", "abcdefghijkl"];
